@@ -53,3 +53,53 @@ contract("DocumentTemplate.DT_InSV.opt",
          raises=[],
          returns=TupleS(Int(), Int(), Int()),
          effects=_opt_effects)
+
+
+# ------------------------------------------------- previous_batches (C12)
+# previous-batches is NOT among the requests the property excepts (next-batches is: it needs the length).  The
+# real method, on a lazily produced sequence: never pulls beyond what the displayed window already needed or the
+# announced previous window needs -- every probe lies before the current window's start plus the overlap, which
+# is within "window end + size" for overlap < size.
+SVQ = 'DocumentTemplate.DT_InSV.sequence_variables'
+SES = 'DocumentTemplate.DT_Util.sequence_ensure_subscription'
+
+
+def _pb_state(E, env):
+    import z3
+    from pyvc.values import VSeq, VI, VC, VO, HDict, HObj
+    cls = E.lookup_qual(SVQ)
+    L = z3.Int('len_items')
+    p0 = z3.Int('pulled0_items')
+    E.assume(L >= 1)
+    E.assume(p0 >= 0)
+    E.assume(p0 <= L)
+    items = VSeq('items', L, 'lazy', {'pulled': p0, 'maxidx': p0 - 1, 'infinite': False, 'pulled_initial': p0})
+    d = HDict()
+    for k, g in (('previous-sequence', 'gprev'), ('sequence-step-size', 'gsize'), ('sequence-step-start', 'gstart'),
+                 ('sequence-step-end', 'gend'), ('sequence-step-orphan', 'gorphan'), ('sequence-step-overlap', 'goverlap')):
+        t = z3.Int(g)
+        d.entries.append([VC(k), VI(t)])
+        env.locals['__g_' + g] = VI(t)
+    d.entries.append([VC('mapping'), VO('mapping')])
+    data = E.alloc(d)
+    me = E.alloc(HObj(cls, {'items': items, 'data': data, 'query_string': VC(''), 'start_name_re': VC(None)}, name='vars'))
+    env.locals['self'] = me
+    env.locals['__g_items'] = items
+
+
+PB_BOUND = "pulled(items) <= imax(pulled_initial(items), gstart - 1 + goverlap)"
+contract(SVQ + '.previous_batches', variant='C12',
+         params=dict(self=NoneV(), suffix=Const('batches'), key=Const('previous-batches')),
+         pre_hook=_pb_state,
+         # as the batch renderer leaves them: 1 <= start <= end <= length, the window's elements have been pulled
+         requires=["gstart >= 1", "gend >= gstart", "gend <= len_of(items)", "gsize >= 1", "gorphan >= 0", "0 <= goverlap",
+                   "goverlap < gsize", "pulled(items) >= gend"],
+         ensures={'C12.previous_batches_pull_nothing_beyond_the_previous_window': PB_BOUND,
+                  'C12.previous_batches_within_the_look_ahead_bound': "pulled(items) <= imax(pulled_initial(items), gend + gsize)"},
+         raises=[],
+         uses=["DocumentTemplate.DT_InSV.opt", SES],
+         invariants={1: dict(header="start > 1",
+                             inv={'start_mono': "start <= gstart", 'C12.pull_bound': PB_BOUND},
+                             types={'start': 'int', 'end': 'int', 'spam': 'int', 'v': 'opaque', 'd': 'opaque'},
+                             havoc_ghost=["items"], havoc_heap=["r"],
+                             decreases="start")})
